@@ -31,7 +31,7 @@ def bounds(tier):
     return {
         "shape_max_nodes": 5 if tier == "quick" else 6,
         "shape_bb_max_nodes": 4 if tier == "quick" else 5,
-        "const_kinds": ["0"] if tier == "quick" else ["0", "1", "x"],
+        "const_kinds": ["0", "x"] if tier == "quick" else ["0", "1", "x"],
         "history_depth": 2 if tier == "quick" else 3,
         "history_seed_nodes": 4,
     }
